@@ -75,3 +75,27 @@ package nasConvert
 //@   specfuel 9
 //@   ensures r == spec.TimeZoneSeconds(timezone)
 //@ end
+
+// ---- C16: PDU session bitmaps ----
+
+//@ func PSIToBooleanArray(buf) (array)
+//@   assigns nothing
+//@   ensures implies(len(buf) >= 2, forall(i, 0, 16, array[i] == ((buf[i/8] >> uint(i%8)) & 1 == 1)))
+//@   ensures implies(len(buf) < 2, forall(i, 0, 16, !array[i]))
+//@ end
+
+//@ func PSIToBuf(array) (r)
+//@   ensures len(r) == 2 && fresh(r)
+//@   ensures forall(i, 0, 16, ((r[i/8] >> uint(i%8)) & 1 == 1) == array[i])
+//@ end
+
+//@ func PDUSessionReactivationResultErrorCauseToBuf(errPduSessionId, errCause) (buf)
+//@   requires len(errPduSessionId) < 0x1000000
+//@   assigns nothing
+//@   loop 0 invariant 0 <= i && i <= len(errPduSessionId) && len(errPduSessionId) == len(errCause) && len(buf) == 2*i
+//@   loop 0 invariant forall(k, 0, i, buf[2*k] == errPduSessionId[k] && buf[2*k+1] == errCause[k])
+//@   loop 0 decreases len(errPduSessionId) - i
+//@   ensures implies(errPduSessionId != nil && len(errPduSessionId) == len(errCause), len(buf) == 2*len(errPduSessionId))
+//@   ensures implies(errPduSessionId != nil && len(errPduSessionId) == len(errCause), forall(k, 0, len(errPduSessionId), buf[2*k] == errPduSessionId[k] && buf[2*k+1] == errCause[k]))
+//@   ensures implies(errPduSessionId == nil || len(errPduSessionId) != len(errCause), len(buf) == 0)
+//@ end
